@@ -272,6 +272,24 @@ impl Stream for CodecStream {
                 }
                 outs.join(" ")
             }
+            // typed round trip of the compact node / peer formats at the boundaries of the address range
+            ["encaddr", ip, port] => {
+                let a = SocketAddrV4::new(std::net::Ipv4Addr::from(ip.parse::<u32>().expect("ip")), port.parse().expect("port"));
+                let id = |b: u8| Id::from_bytes([b; 20]).expect("id");
+                let nodes: Box<[Node]> = vec![Node::new(id(5), a), Node::new(id(6), SocketAddrV4::new(std::net::Ipv4Addr::new(1, 2, 3, 4), 5))].into_boxed_slice();
+                let m1 = Msg::new(7, None, Some(a), MessageType::Response(ResponseSpecific::FindNode(FindNodeResponseArguments { responder_id: id(1), nodes: nodes.clone() })), false);
+                let m2 = Msg::new(7, None, None, MessageType::Response(ResponseSpecific::GetPeers(GetPeersResponseArguments { responder_id: id(1), token: vec![9].into(), values: vec![a], nodes: Some(nodes) })), false);
+                let mut outs = vec![];
+                for m in [m1, m2] {
+                    let b = m.to_bytes().unwrap_or_default();
+                    match Msg::from_bytes(&b) {
+                        Ok(m2) if render_msg(&m2) == render_msg(&m) => {}
+                        other => out.violation("C10", "address-roundtrip", format!("`{}` does not survive encode/decode: {:?}", render_msg(&m), other.map(|x| render_msg(&x)))),
+                    }
+                    outs.push(hex(&b));
+                }
+                outs.join(" ")
+            }
             // typed encoding of an announce_peer request with each implied_port value
             ["encann", implied, port] => {
                 let m = Msg::new(
@@ -428,9 +446,27 @@ impl G {
         let mut v = vec![];
         for _ in 0..n {
             v.extend(self.rng.id20());
-            v.extend(self.rng.bytes(6));
+            v.extend(self.addr6());
         }
         B::S(v)
+    }
+    /// a compact address: random, or at a boundary of the ip / port range
+    fn addr6(&mut self) -> Vec<u8> {
+        let mut a = self.rng.bytes(6);
+        match self.rng.below(10) {
+            0 => {
+                a[4] = 0;
+                a[5] = 0;
+            }
+            1 => {
+                a[4] = 255;
+                a[5] = 255;
+            }
+            2 => a[..4].copy_from_slice(&[0, 0, 0, 0]),
+            3 => a[..4].copy_from_slice(&[255, 255, 255, 255]),
+            _ => {}
+        }
+        a
     }
     fn tok(&mut self) -> B {
         let n = *self.rng.pick(&[0usize, 1, 4, 4, 4, 8, 20]);
@@ -449,7 +485,7 @@ impl G {
         let sig = B::S(self.rng.bytes(64));
         let nn = *self.rng.pick(&[0usize, 1, 8, 20, 21]);
         let np = *self.rng.pick(&[0usize, 1, 3, 20, 50]);
-        let peers = B::L((0..np).map(|_| B::S(self.rng.bytes(6))).collect());
+        let peers = B::L((0..np).map(|_| B::S(self.addr6())).collect());
         let ns = *self.rng.pick(&[0usize, 1, 2, 10]);
         let speers = B::L((0..ns).map(|_| B::S(self.rng.bytes(104))).collect());
         vec![
@@ -556,6 +592,12 @@ pub fn generate(out: &mut Out, seed: u64, thorough: bool) {
         for port in [0u16, 6881, 65535] {
             out.run(&mut st, format!("encann {implied} {port}"));
             out.count("gen:typed-announce");
+        }
+    }
+    for ip in [0u32, 1, 0x7f000001, 0x0a000001, u32::MAX] {
+        for port in [0u16, 1, 6881, 65535] {
+            out.run(&mut st, format!("encaddr {ip} {port}"));
+            out.count("gen:typed-addresses");
         }
     }
     for t in [0u64, 1, (1 << 63) - 1, 1 << 63, u64::MAX] {
